@@ -49,3 +49,37 @@ package xdsresource
 //@   ensures implies(result0 == domainMatchTypeExact, result1 == (domain == host))
 //@   ensures implies(result0 == domainMatchTypeSuffix, result1 == (len(host) >= len(domain)-1 && host[len(host)-(len(domain)-1):] == domain[1:]))
 //@   ensures implies(result0 == domainMatchTypePrefix, result1 == (len(host) >= len(domain)-1 && host[:len(domain)-1] == domain[:len(domain)-1]))
+//@   ensures result1 == matches(domain, host)
+
+// ---- C46: best matching virtual host ------------------------------------------------
+
+// whether host matches the domain pattern (same case table as match above)
+//@ spec func matches(domain, host string) bool {
+//@   t := matchTypeForDomain(domain)
+//@   if t == domainMatchTypeUniversal { return true }
+//@   if t == domainMatchTypeExact { return domain == host }
+//@   if t == domainMatchTypeSuffix { return len(host) >= len(domain)-1 && host[len(host)-(len(domain)-1):] == domain[1:] }
+//@   if t == domainMatchTypePrefix { return len(host) >= len(domain)-1 && host[:len(domain)-1] == domain[:len(domain)-1] }
+//@   return false
+//@ }
+
+// (T, L) is at least as good as (t, l): better pattern type, or same type and at least as long
+//@ spec func atLeast(T domainMatchType, L int, t domainMatchType, l int) bool {
+//@   return T > t || (T == t && L >= l)
+//@ }
+
+// FindBestMatchingVirtualHost: the running best (matchType, matchLen) dominates
+// every matching domain pattern seen so far (outer index rangeindex1, inner
+// index rangeindex2), so a better-typed or longer pattern is never displaced
+// by a worse one; nothing is selected iff nothing matched.
+//@ func FindBestMatchingVirtualHost
+//@   prop C46
+//@   requires forall(func(v int) bool { return implies(0 <= v && v < len(vHosts), vHosts[v] != nil) })
+//@   loop 1 invariant (matchVh == nil) == (matchType == domainMatchTypeInvalid)
+//@   loop 1 invariant forall2(func(v, d int) bool { return implies(0 <= v && v <= rangeindex1 && 0 <= d && d < len(vHosts[v].Domains) && matches(vHosts[v].Domains[d], host),
+//@       atLeast(matchType, matchLen, matchTypeForDomain(vHosts[v].Domains[d]), len(vHosts[v].Domains[d]))) })
+//@   loop 2 invariant (matchVh == nil) == (matchType == domainMatchTypeInvalid) && 0 <= rangeindex1 && rangeindex1 < len(vHosts) && vh == vHosts[rangeindex1]
+//@   loop 2 invariant forall2(func(v, d int) bool { return implies(0 <= v && v < rangeindex1 && 0 <= d && d < len(vHosts[v].Domains) && matches(vHosts[v].Domains[d], host),
+//@       atLeast(matchType, matchLen, matchTypeForDomain(vHosts[v].Domains[d]), len(vHosts[v].Domains[d]))) })
+//@   loop 2 invariant forall(func(d int) bool { return implies(0 <= d && d <= rangeindex2 && d < len(vh.Domains) && matches(vh.Domains[d], host),
+//@       atLeast(matchType, matchLen, matchTypeForDomain(vh.Domains[d]), len(vh.Domains[d]))) })
